@@ -908,6 +908,29 @@ def main(argv=None):
     known = core.load_known_findings(PROP)
     reported = []
     exit_code = 0
+    # every listed known finding has a pinned replay: it is re-run on each invocation, so that its
+    # KNOWN-FINDING line does not depend on whether the exploration happens to hit it
+    known_status = {}
+    for kf in known:
+        rp = kf.get('replay')
+        if not rp:
+            continue
+        try:
+            with open(os.path.join(core.VERIF, rp)) as f:
+                v = replay_plan(json.load(f)['plan'])
+        except Exception as e:  # noqa: BLE001
+            harness_errors.append({'harness_error': f'replay of known finding {kf["id"]} failed to run: {e!r}'})
+            continue
+        if v is None:
+            known_status[kf['id']] = 'no longer reproduces on this tree'
+            print(f"note: known finding {kf['id']} no longer reproduces on this tree (pinned replay {rp})")
+        else:
+            known_status[kf['id']] = 'reproduced'
+            if core.match_known(v, [kf]) is None:
+                v['plan'] = json.load(open(os.path.join(core.VERIF, rp)))['plan']
+                violations.append(v)  # fails differently than recorded: reported below as a violation
+            else:
+                violations.insert(0, dict(v, plan=json.load(open(os.path.join(core.VERIF, rp)))['plan']))
     classes = {}
     for v in violations:
         kf = core.match_known(v, known)
@@ -980,6 +1003,7 @@ def main(argv=None):
                                  'mismatches': len(tot['selftest']['mismatch']) + len(xproc['mismatch'])},
         'configurations_skipped_because_the_fault_free_run_raised': tot['ref_failed'][:20],
         'regression_replays_of_fixed_findings': regressions,
+        'pinned_replays_of_known_findings': known_status,
         'aggregate_digest_of_reference_runs': '%016x' % (sum(core.h64((i, d)) for i, d, _ in digests) % (1 << 64)),
         'stopped_by_wall_cap': bool(stopped),
         'processes': nproc,
